@@ -49,9 +49,10 @@ def walk(dt, acc=None):
     """all datatype and enum objects reachable from dt"""
     acc = [] if acc is None else acc
     acc.append(dt)
-    if hasattr(dt, '_enum'):
-        acc.append(dt._enum)
-    members = getattr(dt, 'members', None)
+    # (through __dict__: the convenience types answer attribute look-ups themselves)
+    if '_enum' in getattr(dt, '__dict__', {}):
+        acc.append(dt.__dict__['_enum'])
+    members = getattr(dt, '__dict__', {}).get('members', None) if not isinstance(getattr(type(dt), 'members', None), property) else dt.members
     if isinstance(members, dict):
         for m in members.values():
             walk(m, acc)
